@@ -212,3 +212,29 @@ PROPS["C16"] = {
               "text": "Generated-input search: each event emitted for a generated logging program (every value type, nesting, duplicate keys, keys equal to part names, the empty key) is rendered under generated PartsOrder/PartsExclude/FieldsOrder/FieldsExclude/TimeFormat/TimeLocation/TimeFieldFormat; Write must return (len, nil); the fields section must equal the reference (error first then lexical, or FieldsOrder first then lexical with the error field once anywhere; strings verbatim or strconv.Quote'd by the stated byte classes; numbers with their exact digits; other values as encoding/json's compact form of the decoded value); the parts prefix must equal the reference when all configured parts are well-typed; rendering twice must give identical bytes. Held on everything explored.",
               "note": "Trusts encoding/json (decoding and compact marshalling), strconv.Quote, time. The share of fully checked events is reported in the evidence notes."},
 }
+
+SCHED_ASSUME = ["the real diode sources are rewritten at check time (harness/tools/instrument) so that sync, sync/atomic, go, blocking receive, time.Sleep and select-with-default go through the cooperative scheduler in sched/; the rewrite is re-applied to /repo's current tree on every run",
+                "vsync.Mutex/Cond/Pool model the documented semantics of package sync (Pool as a LIFO stack); the Go runtime's own implementation of these is trusted",
+                "poller quiescence = two consecutive idle poll rounds without delivery; a sleeping thread becomes runnable when another thread stepped or nothing else can run",
+                "a step bound hit or an instrumentation failure is inconclusive (exit 2), never a violation"]
+
+def _sched_jobs(q_rapid, t_rapid):
+    return [
+        {"name": "dfs", "sched": True, "pkg": "./vsched/diodecheck", "tags": "", "run": "^TestDFS$", "shards": T(8, 16), "timeout": T(900, 7200), "replay": "^TestReplay$"},
+        {"name": "random", "sched": True, "pkg": "./vsched/diodecheck", "tags": "", "run": "^TestRapidSchedules$", "rapid": T(q_rapid, t_rapid), "shards": T(4, 16), "timeout": T(900, 7200)},
+        {"name": "known", "sched": True, "pkg": "./vsched/diodecheck", "tags": "", "run": "^TestKnown$"},
+    ]
+
+_SCHED_TECH = "schedule exploration as generated-input search: bounded-preemption DFS (exhaustive for small configurations), PCT priority schedules and rapid byte-string schedules drive the real diode sources on a cooperative scheduler; oracle: invariants over the recorded history"
+PROPS["C10"] = {"jobs": _sched_jobs(8000, 120000), "assumptions": SCHED_ASSUME,
+    "claim": {"ref": "DESIGN.md §3.6, §5 C10", "technique": _SCHED_TECH,
+              "text": "Generated-input search over schedules at the granularity of individual atomic, mutex, condition-variable, pool and channel operations of the real diode code: all schedules with at most 2 (3 in thorough) preemptions for small (P, W, size) in waiter and poller mode, incl. a consumer blocked forever inside the wrapped writer, plus PCT and random byte-string schedules for P<=4, W<=6, size<=8 (incl. a message above the 64 KiB pool limit). Every producer's Write must return; every delivered buffer must equal exactly one Write argument and stay unchanged while inside the wrapped Write (producers scribble over their buffer after Write returns); no duplicates, no overlapping deliveries, ring positions strictly increasing, alert counts bounded by positions claimed. Held on everything explored.",
+              "note": "Exhaustive only within the stated preemption bound and configurations; sync primitives are models with documented semantics."}}
+PROPS["C11"] = {"jobs": _sched_jobs(8000, 120000), "assumptions": SCHED_ASSUME + ["Close is called after all producers returned: both at quiescence and immediately (early-close configurations)"],
+    "claim": {"ref": "DESIGN.md §3.6, §5 C11", "technique": _SCHED_TECH,
+              "text": "Same schedule search with Close called by the main thread after the last Write returned, both immediately and after quiescence: after Close returned, delivered + reported >= written (equality when no producer retried a position), nothing reported dropped while fewer than size messages were outstanding, and no delivery after Close returned. Held on everything explored (three genuine defects found this way were repaired: D10, D13, D14).",
+              "note": "The Fatal path (Logger.Fatal -> Close) is covered by C04's re-executed children only for the exit status; the drain itself is this check."}}
+PROPS["C12"] = {"jobs": _sched_jobs(8000, 120000), "assumptions": SCHED_ASSUME + ["liveness is decided as bounded liveness: deadlock states and the step bound under a fair non-preemptive tail"],
+    "claim": {"ref": "DESIGN.md §3.6, §5 C12", "technique": _SCHED_TECH,
+              "text": "Same schedule search in waiter and poller mode; the lowest-priority main thread observes the quiescent state after all Writes returned: delivered + reported >= written must hold there (no later Write or Close needed), and after Close every thread must terminate. On the current tree the waiter-mode lost wake-up (KF-C12-1) is a recorded known finding, identified by its history signature; every other violation is reported.",
+              "note": "Known finding KF-C12-1 is excluded by signature and counted (excluded_known in the evidence); its committed replay is re-run on every invocation."}}
